@@ -257,7 +257,7 @@ def run_probe(case):
 class C14(core.Check):
     pid = 'C14'
     driver = 'drv_c14'
-    quick_cases = 154
+    quick_cases = 420
     thorough_cases = 2800
     rule = ('one case = one zoo model (MLP, ResNet, FTTransformer, TabTransformer, Trompt, TabNet, ExcelFormer; round '
             'robin) on a fresh materialized dataset (6-10 rows, 2-3 numerical and 2-3 categorical columns, optional '
